@@ -84,6 +84,20 @@ class Stub:
     def menu(self, pay):
         multi = self.sc.get("multi", True)
         none = dict(suspensions=[], assignments=[])
+        if self.sc.get("assign_all"):
+            # bulk scenario: one reply only - every ready operator gets one CPU in the first pool that still has one
+            free = {p["pool_id"]: [p["avail_cpu"], p["avail_ram_gb"]] for p in pay["pools"]}
+            asgs = []
+            for pl in pay["new_pipelines"] + pay["other_pipelines"]:
+                for o in pl["operators"]:
+                    if o["is_assignable_state"] and o["parents_complete"]:
+                        pid = next((k for k, v in free.items() if v[0] >= 1 and v[1] >= 0.5), None)
+                        if pid is None:
+                            break
+                        free[pid][0] -= 1
+                        free[pid][1] -= 0.5
+                        asgs.append(dict(operator_ids=[o["id"]], cpu=1, ram_gb=0.5, pool_id=pid, priority=pl["priority"], is_resume=False, force_run=False))
+            return [dict(suspensions=[], assignments=asgs)]
         pools = [p for p in pay["pools"] if p["avail_cpu"] >= 1 and p["avail_ram_gb"] > 0]
         ready = []
         for pl in pay["new_pipelines"] + pay["other_pipelines"]:
@@ -529,7 +543,16 @@ def main(tier, seed):
             for pools, multi in (((1, True), (2, False)) if q else ((1, True), (2, False), (2, True))):
                 for wl in ((wls[:1] + wls[2:]) if q and tps == 10 else wls):
                     scs.append(scenario(tps, poll, pools, multi, wl))
-    res = pmap(explore, [(sc, bound) for sc in scs], chunks=1)
+    # bulk: more results in one tick than any per-call cap in the bridge (size follows the constants of rest.py, mc/scale.py)
+    from .. import scale as _scale
+    nb, sinfo = _scale.size(["scheduler/rest", "executor/assignment", "workload/pipeline"], 40, 4000, factor=1.2)
+    wl_b = [("B", 0 if i < nb else 1, "single", ("s1",)) for i in range(nb + nb // 3)] + [("I", 0, "chain2", ("s1", "s2"))]
+    sc_b = scenario(1, 0, -(-(nb + 2) // 64), True, wl_b)
+    sc_b.update(cpus=64, ram=64, assign_all=True, name=f"rest-bulk-{nb}")
+    sc_b["duration"] = 6
+    scs_all = [(sc, bound) for sc in scs] + [(sc_b, 0)]
+    scs = scs + [sc_b]
+    res = pmap(explore, scs_all, chunks=1)
     for sc, acc in zip(scs, res):
         rep.cov["evaluations"] += acc["execs"]
         rep.cov["traces_validated_against_impl"] += acc["execs"]
